@@ -240,7 +240,7 @@ def run_concurrent(args):
         ts = [threading.Thread(target=client, args=(i,)) for i in range(3)]
         for t in ts:
             t.start()
-        time.sleep(args["seconds"])
+        common.run_for(args["seconds"], lambda: counts["q"] >= 20 * args["seconds"])
         stop.set()
         for t in ts:
             t.join()
